@@ -2,8 +2,8 @@
 # Runs every registered quick check for several VERIF_SEED / PYTHONHASHSEED values from fresh processes.
 # usage: ./sweep.sh "0 1 2" [tier] [props...]
 seeds=${1:-"0 1 2"}; tier=${2:-quick}; shift 2 2>/dev/null
-props=${@:-$(python3 -c "import json;print(' '.join(c['property_id'] for c in json.load(open('/verif/MANIFEST.json'))['checks']))")}
-cd /verif
+cd "$(dirname "$0")"; props=${@:-$(python3 -c "import json;print(' '.join(c['property_id'] for c in json.load(open('MANIFEST.json'))['checks']))")}
+cd "$(dirname "$0")"
 for p in $props; do for s in $seeds; do
   out=$(VERIF_SEED=$s /venv/bin/python -m lwverif run $p --tier $tier 2>&1); rc=$?
   echo "$p seed=$s rc=$rc $(echo "$out" | grep -c KNOWN-FINDING) known | $(echo "$out" | head -1 | cut -c1-100)"
